@@ -569,6 +569,10 @@ MUTANTS = [
         """                r1::notify_bounded_queue_monitor(my_monitors, cbq_slots_avail_tag, skipped);
             });""", """                suppress_unused_warning(skipped);
             });""")]),
+    dict(name='c02-serializer-16-bit-request-field', prop='C02', clause='D7', edits=[('src/tbb/thread_request_serializer.h',
+        "static constexpr std::uint64_t pending_delta_base = std::uint64_t(1) << 32;", "static constexpr std::uint64_t pending_delta_base = 1 << 15;")]),
+    dict(name='c02-serializer-previous-word-truncated', prop='C02', clause='D7', edits=[('src/tbb/thread_request_serializer.cpp',
+        "    std::uint64_t prev_pending_delta = my_pending_delta.fetch_add(counter_value + delta);", "    int prev_pending_delta = int(my_pending_delta.fetch_add(counter_value + delta));")]),
     # ---------------------------------------------------------------- C05
     dict(name='c05-simple-do-while', prop='C05', clause='D1', edits=[
         (PT_H, "        while( range.is_divisible() )\n            start.offer_work( split_obj, ed );", "        do {\n            start.offer_work( split_obj, ed );\n        } while( range.is_divisible() );")]),
